@@ -649,7 +649,16 @@ pub fn selftest(kind: &str) {
             let mut s = [0u8; 256];
             std::hint::black_box(rec(0, &mut s));
         }
-        "hang" => std::thread::sleep(std::time::Duration::from_secs(120)),
+        "hang" => {
+            // CPU-bound non-termination
+            let mut x = 1u64;
+            loop {
+                x = x.wrapping_mul(6364136223846793005).wrapping_add(1442695040888963407);
+                if std::hint::black_box(x) == 0 {
+                    break;
+                }
+            }
+        }
         "abort" => std::process::abort(),
         _ => {}
     }
